@@ -23,7 +23,7 @@ CHECKS = {
  "C12": ("other", "5.12", TECH_E,
    "Partial. No result of a fallible library call is dropped unread (MIR def-use, all configurations); 5^135 and 5^i constants exact. Exactness of carry chains is NOT decided."),
  "C14": ("proof", "5.14", "static analysis: compiler-evaluated constants checked exhaustively against definitions (no execution of the parser); abstract interpretation for the on-demand integer powers",
-   "Finite set of stored power constants, each compared with an independent big-integer recomputation of its definition, from rustc's own constant evaluation of the current tree, per configuration. On-demand integer powers (compact): every u64::pow call site proven overflow-free by abstract interpretation. Not covered: exactness of powf/powd in compact builds."),
+   "Finite set of stored power constants, each compared with an independent big-integer recomputation of its definition, from rustc's own constant evaluation of the current tree, per configuration. On-demand integer powers (compact): every u64::pow call site proven overflow-free by abstract interpretation. Bundled libm (no_std): the head+tail constants of powf/powd (ln 2, 2/(3 ln 2), 1/ln 2, log2 1.5) equal their definitions to 14 bits beyond the working precision. Not covered: exactness of powf/powd beyond their constants."),
  "C15": ("other", "5.15", TECH_E,
    "Decides the property for all inputs at once: no alloc-crate instance reachable on the monomorphic call graph from parse_float, no alloc item mentioned anywhere in the library, no indirect calls, no extern crate alloc, in every non-alloc configuration. Controls: alloc configurations and fixture."),
  "C16": ("other", "5.16", TECH_E,
